@@ -89,9 +89,10 @@ pub fn run_cell(cell: &Cell, seed: u64) -> Option<ExactOutcome> {
         return Some(ExactOutcome { single_draw: false, d: 0.0, bound: 0.0, sup_xf: 0.0, at: 0.0, distinct_outputs: 0, bad_outputs: vec![] });
     }
     let base = VRng::mix(seed);
-    let parts: Vec<(Vec<f32>, Vec<(u64, String, String)>)> = (0..64u64)
+    let clones: Vec<(u64, Box<dyn crate::families::Sampler>)> = (0..64u64).map(|b| (b, s.clone_box())).collect();
+    let parts: Vec<(Vec<f32>, Vec<(u64, String, String)>)> = clones
         .into_par_iter()
-        .map(|b| {
+        .map(|(b, s)| {
             let mut out = Vec::with_capacity(1 << 18);
             let mut bad = vec![];
             for i in 0..(1u64 << 18) {
